@@ -92,7 +92,63 @@ CLAIMS["C02"] = ("Props/C02 (Lean 4): the wrapper set and wrapper constructors e
                  "continuation on the outer value after `<<<`; it fails only on a level-0 `<<<`. Tie: K1 wrapper family + K2-chains with "
                  "nested wrappers against hand-nested closures.",
                  NOTE_COMMON, "Lean 4 proof (stack machine = recursive descent) + table theorems; K1/K2-chains differential", "§7 C02")
-CLAIMS.pop("C15")   # not claimed before its Props module exists
+CLAIMS["C15"] = (
+    "Props/C15 (Lean 4) no_internal_bug: for every program whose steps are balanced (no `<<<` without an open `>>>` in the same step) and "
+    "whose members have parser-shaped operand counts, and every macro kind, the generator model returns code or one of the four whitelisted "
+    "configuration rejections — never one of its expect()/unwrap() sites (each is an explicit outcome of the total model). The deciding "
+    "tie for the implementation's parser + generator is K1 with an implementation-side oracle on every generated / mutated / malformed "
+    "input: no panic other than the whitelisted rejections, every structurally invalid input of the property's list rejected (incl. "
+    "duplicated options at every position), every accepted output accepted by syn::parse2::<Expr>, outcome class and tokens = the model's.",
+    NOTE_COMMON + "'Valid Rust' is checked with syn's expression grammar, not rustc's; inputs whose member-access operand is not a member "
+    "access, whose custom_joiner tokens do not form a call, or whose `let` name is a keyword (syn accepts `let mut let`) are outside the "
+    "quantifier. Termination of the real parser's scan loop is observed, not proved (the parser is not yet modelled in Lean).",
+    "Lean 4 proof (no internal error on balanced inputs) + K1 differential with implementation-side totality oracle", "§7 C15")
+CLAIMS["C08"] = ("Props/C08 (Lean 4): a multi-branch step of a thread-spawning macro forks exactly one thread per active branch, named "
+                 "<caller>_join_<branch index>, all forks before any join; a single-branch step forks nothing; the barrier theorem over the "
+                 "schedule relation Lin: for 'fork all, join all, continue with rest', EVERY global order of events is an interleaving of "
+                 "exactly these threads' complete bodies followed by a schedule of rest (caller waits; nothing of a later step earlier), and "
+                 "conversely every interleaving of the bodies is a possible schedule (all alive at once, none waits for a sibling). "
+                 + REFINE + "K2: thread name/id of every callback, Barrier(n) gates that deadlock a serialised expansion (20 s watchdog), "
+                 "nested spawn macros to depth 3.",
+                 NOTE_COMMON + "That the OS actually runs the threads, and the meaning of std::thread::Builder::spawn/join, are modelled (Sem), "
+                 "validated by K2, not derived from std.", "Lean 4 proof over a schedule relation (barrier, all interleavings) + refinement; K2 gated executions", "§7 C08")
+CLAIMS["C09"] = ("Props/C09 (Lean 4), partial: for every program the async expansion is a single Box::pin(async move {…}) containing every user "
+                 "token (laziness, syntactically); steps are joined by one P::join!/try_join! or awaited in place; task-spawning wraps each "
+                 "operand of a multi-branch step into __spawn_tokio(Box::pin(chain)); no polling logic of its own. Progress, wake-up routing "
+                 "and completion are properties of async/.await, futures::join! and tokio that are NOT modelled in Lean: K2-async observes them "
+                 "on a deterministic executor (counting root waker, manually opened gates: every opening order drawn, batches, spurious polls) "
+                 "and on a current-thread tokio runtime for the task-spawning macros.",
+                 NOTE_COMMON + "No Lean model of the async semantics: the run-time clauses are observed (K2-async), not proved.",
+                 "Lean 4 shape theorems (partial) + K2-async on a deterministic executor", "§7 C09")
+CLAIMS["C10"] = ("Props/C10 (Lean 4) + refinement: in the reference loop every reached atom runs exactly once per step (capture events of a step "
+                 "are pairwise distinct and exactly the hoisted operands; one chain per active branch; handler defined once, called at most "
+                 "once), and the generated code has exactly these events (sync_refines). Token level (nothing dropped/duplicated in the "
+                 "expansion): K1 oracle that every operand marker occurring once in the input occurs exactly once in the real output. "
+                 "Moves/drops: K2 drop counters (C19 program).",
+                 NOTE_COMMON + "The token-multiset theorem (operand_occurs_once) is not yet a Lean theorem; rustc's move semantics are outside Lean (partial).",
+                 "Lean 4 refinement + once-only theorems on the reference loop; K1 marker oracle; K2 event lists", "§7 C10")
+CLAIMS["C16"] = ("Props/C16 (Lean 4, ∀ contexts): the joiner form of every step (custom joiner applied exactly once iff >1 active branches, to "
+                 "the active branches' chains in branch order; default tuple / P::join!); operands are `move ||` closures iff lazy ∧ multi; "
+                 "option defaults; transpose_results(false) scrutinises every step with match Ok/Err; every futures item prints the configured "
+                 "path. 'Any order and subset, each at most once' is decided on the real parser by K1 over every subset, permutation and "
+                 "duplicate position; K2 compiles programs with a logging joiner macro (count and arity per step, results = default config).",
+                 NOTE_COMMON + "The option loop of the parser is not modelled in Lean; lazy + custom joiner run-time semantics is the joiner's business.",
+                 "Lean 4 theorems on the generator model + K1 exhaustive option enumeration + K2 logging joiner", "§7 C16")
+CLAIMS["C17"] = ("Props/C17 (Lean 4): Var.render (built from the name-format table regenerated from name_constructors.rs) is injective on the "
+                 "internal names for ALL indices (separator lemma excludes __ew1_11_0 = __ew11_1_0) and every internal name starts with `__`; "
+                 "size independence and 'nest freely' are the refinement theorem (no bound on branches/steps/operands; the generated code is "
+                 "closed: it never gets stuck on an unbound name; an inner expansion is an opaque atom of the outer one). K1: 12/24-branch and "
+                 "24-action programs; name constructors of the running code vs the model; K2: macros nested to depth 3.",
+                 NOTE_COMMON + "User `let` names starting with `__` are excluded by hypothesis; hygiene/spans are not modelled.",
+                 "Lean 4 proof (injectivity for all indices) + refinement; K1 large indices; K2 nesting", "§7 C17")
+CLAIMS["C19"] = ("Props/C19 (Lean 4, ∀ programs): without `spawn` no operand is wrapped into a thread/tokio spawn, no thread builders, no handle "
+                 "joins; operands are `move ||` closures only when lazy (default off for every macro that does not spawn threads); the "
+                 "sequential frame is one block (inspect helper bounded by impl Fn(&I) only); Send + 'static are written only in "
+                 "__spawn_tokio, Box::pin only in the async frame. K1 token oracle on real sequential outputs (no Box/clone/Send/'static/"
+                 "format!/spawn/collections of the macro's own); K2: move-only, Rc, & and &mut programs through the non-spawning macros must "
+                 "compile and run, allocation counter = 0 around sequential evaluations, drop counter exact.",
+                 NOTE_COMMON + "Whether rustc accepts a borrowing program and what the allocator does are type-system / run-time facts: observed (K2), partial.",
+                 "Lean 4 syntactic theorems + K1 token oracle + K2 allocation/borrow programs", "§7 C19")
 PLANNED = {}
 
 
